@@ -313,6 +313,27 @@ def handle (args : List String) : String :=
       | .ok r => "ok " ++ (if r.isComplete then "1 " else "0 ") ++ Proto.encodeStr (itemsText r.items)
       | .error x => "raise " ++ showExc x
     | _, _, _ => "bad-op"
+  | "aug" :: ll :: ml :: lb :: k :: toks =>
+    -- `pyval aug <linelen> <maxlines> <lb> <k> (<Op>|= e)×k`: the statements of one variable, then its display
+    let stmt : List String → Option ((Option BOp × Expr) × List String) := fun toks =>
+      match toks with
+      | op :: rest => do
+        let o ← (if op == "=" then some none else (parseBOp op).map some)
+        let (e, rest) ← parseE (rest.length + 1) rest
+        some ((o, e), rest)
+      | [] => none
+    match ll.toNat?, ml.toNat?, k.toNat? with
+    | some ll, some ml, some k =>
+      match many stmt k toks with
+      | some (stmts, []) =>
+        match storeAll none stmts with
+        | some e =>
+          match colorize liveTable (Cfg.make ll ml (lb == "1")) e with
+          | .ok r => "ok " ++ (if r.isComplete then "1 " else "0 ") ++ Proto.encodeStr (itemsText r.items)
+          | .error x => "raise " ++ showExc x
+        | none => "novalue"
+      | _ => "bad-op"
+    | _, _, _ => "bad-op"
   | "parse" :: toks =>
     match parseD (toks.length + 1) toks with
     | some (d, []) =>
